@@ -4,6 +4,7 @@ package ice
 
 import (
 	"fmt"
+	"github.com/pion/logging"
 	"strconv"
 )
 
@@ -55,8 +56,58 @@ func vMakeCandidate(ty CandidateType, tcp, v6 bool, tt TCPType, relayProto strin
 }
 
 // ops:
-//   cand <type 1..4> <tcp> <v6> <tcptype 0..3> rp:<relay protocol> <hasAgent> <offset> <component>  -> "<tp> <lp> <priority>"
-//   pair <local priority> <remote priority> <controlling>                                        -> "<pair priority>"
+//
+//	cand <type 1..4> <tcp> <v6> <tcptype 0..3> rp:<relay protocol> <hasAgent> <offset> <component>  -> "<tp> <lp> <priority>"
+//	pair <local priority> <remote priority> <controlling>                                        -> "<pair priority>"
+//
+// vPrioAgent: the agent a candidate reads its configured TCP priority offset from.  For the offsets below 1024 (and a
+// sample of the others) it is a REAL agent built through both public configuration routes — the AgentConfig struct
+// and the WithTCPPriorityOffset option — which must agree; otherwise a bare struct.  Agents are cached and closed in bulk.
+var vPrioAgents = map[int]*Agent{}
+
+func vPrioAgent(off int) (*Agent, string) {
+	if a, ok := vPrioAgents[off]; ok {
+		return a, ""
+	}
+	if off >= 1024 && off%97 != 0 && off < 65400 {
+		return &Agent{tcpPriorityOffset: uint16(off)}, "" //nolint:gosec
+	}
+	if len(vPrioAgents) >= 48 {
+		for k, a := range vPrioAgents {
+			_ = a.Close()
+			delete(vPrioAgents, k)
+		}
+	}
+	o16 := uint16(off) //nolint:gosec
+	lf := logging.NewDefaultLoggerFactory()
+	lf.DefaultLogLevel = logging.LogLevelDisabled
+	viaCfg, err := NewAgent(&AgentConfig{
+		TCPPriorityOffset: &o16, MulticastDNSMode: MulticastDNSModeDisabled, LoggerFactory: lf,
+		NetworkTypes: []NetworkType{NetworkTypeUDP4, NetworkTypeTCP4},
+	})
+	if err != nil {
+		return nil, "error newagent " + err.Error()
+	}
+	viaOpt, err := NewAgentWithOptions(WithTCPPriorityOffset(o16), WithMulticastDNSMode(MulticastDNSModeDisabled),
+		WithLoggerFactory(lf), WithNetworkTypes([]NetworkType{NetworkTypeUDP4, NetworkTypeTCP4}))
+	if err != nil {
+		_ = viaCfg.Close()
+
+		return nil, "error newagentopts " + err.Error()
+	}
+	got := viaOpt.tcpPriorityOffset
+	_ = viaOpt.Close()
+	if got != viaCfg.tcpPriorityOffset {
+		r := fmt.Sprintf("config-routes-differ offset %d: AgentConfig gives %d, WithTCPPriorityOffset gives %d", off, viaCfg.tcpPriorityOffset, got)
+		_ = viaCfg.Close()
+
+		return nil, r
+	}
+	vPrioAgents[off] = viaCfg
+
+	return viaCfg, ""
+}
+
 func vPrioExec(o *vOut, t []string) string {
 	switch {
 	case len(t) == 10 && t[1] == "cand":
@@ -72,7 +123,11 @@ func vPrioExec(o *vOut, t []string) string {
 			return "error"
 		}
 		if hasAgent {
-			base.currAgent = &Agent{tcpPriorityOffset: uint16(off)}
+			a, werr := vPrioAgent(off)
+			if werr != "" {
+				return werr
+			}
+			base.currAgent = a
 		}
 		o.stat(fmt.Sprintf("cand.%s.tcp=%t", CandidateType(ty), tcp))
 		return fmt.Sprintf("%d %d %d", base.TypePreference(), base.LocalPreference(), c.Priority())
